@@ -34,10 +34,12 @@ type Node struct {
 	Small  map[int8]string   `json:"small"`
 	Bytes  map[uint8]string
 	M      map[string]any
-	Short  string `json:"id"`   // two tags that differ only in case: "id" ...
-	Long   string `json:"ID"`   // ... and "ID"
-	Type   string `json:"Kind"` // an EARLIER field whose JSON tag spells ...
-	Kind   string `json:"kind"` // ... the Go name of a later field: x.Kind is this one
+	Short  string `json:"id"`                    // two tags that differ only in case: "id" ...
+	Long   string `json:"ID"`                    // ... and "ID"
+	Type   string `json:"Kind"`                  // an EARLIER field whose JSON tag spells ...
+	Kind   string `json:"kind"`                  // ... the Go name of a later field: x.Kind is this one
+	Acct   int    `json:"acct,omitempty,string"` // several options after the name
+	Bare   string `json:",omitempty"`            // options only: the name is the Go name
 	hidden string
 	secret any
 	Leaf
@@ -64,6 +66,8 @@ type rootT struct {
 	Dash   string `json:"-,"`   // encoding/json: the literal name "-"
 	Type   string `json:"Kind"` // tag of an earlier field = Go name of the next field
 	Kind   string `json:"kind"`
+	Acct   int    `json:"acct,omitempty,string"` // several options after the name
+	Bare   string `json:",omitempty"`            // options only: the name is the Go name
 }
 
 // VD is a JSON-serialisable description of a Go value.
@@ -116,6 +120,9 @@ func (v VD) Go() any {
 	case "f64":
 		f, _ := strconv.ParseFloat(v.S, 64)
 		return f
+	case "int8", "int16", "int32", "int64", "uint", "uint8", "uint16", "uint32", "uint64", "f32":
+		n, _ := buildNum(v)
+		return n
 	case "map":
 		m := make(map[string]any, len(v.M))
 		for k, e := range v.M {
@@ -266,6 +273,8 @@ func (v VD) node() Node {
 		Long:   v.M["Long"].S,
 		Type:   v.M["Type"].S,
 		Kind:   v.M["Kind"].S,
+		Acct:   atoi(v.M["Acct"].S),
+		Bare:   v.M["Bare"].S,
 		Leaf:   Leaf{Deep: v.M["Deep"].S, Num: atoi(v.M["Num"].S)},
 	}
 	if a, ok := v.M["Any"]; ok {
